@@ -4,9 +4,7 @@ use std::io::{BufRead, BufReader, Write};
 use std::process::{Child, ChildStdin, ChildStdout, Command, Stdio};
 
 pub struct Model {
-    child: Child,
-    stdin: ChildStdin,
-    stdout: BufReader<ChildStdout>,
+    inner: Option<(Child, ChildStdin, BufReader<ChildStdout>)>,
     pub requests: u64,
 }
 
@@ -15,7 +13,12 @@ pub fn model_path() -> String {
 }
 
 impl Model {
+    /// `GQLMODEL=none`: the Lean build is broken; every request is answered `(nomodel)` and the
+    /// harness runs the implementation against the property oracles only.
     pub fn spawn() -> Model {
+        if model_path() == "none" {
+            return Model { inner: None, requests: 0 };
+        }
         let mut child = Command::new(model_path())
             .stdin(Stdio::piped())
             .stdout(Stdio::piped())
@@ -23,17 +26,25 @@ impl Model {
             .unwrap_or_else(|e| panic!("cannot start model driver {}: {}", model_path(), e));
         let stdin = child.stdin.take().unwrap();
         let stdout = BufReader::new(child.stdout.take().unwrap());
-        Model { child, stdin, stdout, requests: 0 }
+        Model { inner: Some((child, stdin, stdout)), requests: 0 }
+    }
+
+    pub fn available(&self) -> bool {
+        self.inner.is_some()
     }
 
     pub fn ask(&mut self, req: &Sexp) -> Sexp {
         self.requests += 1;
+        let (_, stdin, stdout) = match self.inner.as_mut() {
+            Some(x) => x,
+            None => return crate::sexp::tagged("nomodel", vec![]),
+        };
         let line = req.render();
-        self.stdin.write_all(line.as_bytes()).unwrap();
-        self.stdin.write_all(b"\n").unwrap();
-        self.stdin.flush().unwrap();
+        stdin.write_all(line.as_bytes()).unwrap();
+        stdin.write_all(b"\n").unwrap();
+        stdin.flush().unwrap();
         let mut reply = String::new();
-        self.stdout.read_line(&mut reply).unwrap();
+        stdout.read_line(&mut reply).unwrap();
         if reply.is_empty() {
             panic!("model driver died on request: {}", req.short(400));
         }
@@ -44,7 +55,9 @@ impl Model {
 
 impl Drop for Model {
     fn drop(&mut self) {
-        let _ = self.child.kill();
-        let _ = self.child.wait();
+        if let Some((child, _, _)) = self.inner.as_mut() {
+            let _ = child.kill();
+            let _ = child.wait();
+        }
     }
 }
